@@ -10,9 +10,11 @@ package main
 // and the verdict taken from Parse.
 
 import (
+	"flag"
 	"fmt"
 	"math"
 	"os"
+	"path/filepath"
 	"reflect"
 	"strconv"
 
@@ -20,10 +22,33 @@ import (
 	"github.com/kaptinlin/gozod/pkg/validate"
 
 	"verifharness/hx"
+	"verifharness/numgen"
+)
+
+// -gen DIR -repo TREE: run the translator (harness/numgen) over TREE and write DIR/NumDispatch.lean
+// (only when its content changes), then exit.
+var (
+	genDir  = flag.String("gen", "", "translator mode: write the dispatch table into this directory and exit")
+	genRepo = flag.String("repo", "/repo", "library working tree read by the translator")
 )
 
 func main() {
-	if err := runC16(hx.ParseFlags()); err != nil {
+	cfg := hx.ParseFlags()
+	if *genDir != "" {
+		src, err := numgen.GenNum(*genRepo)
+		if err != nil {
+			fmt.Fprintln(os.Stderr, "translator:", err)
+			os.Exit(4)
+		}
+		changed, err := numgen.WriteIfChanged(filepath.Join(*genDir, "NumDispatch.lean"), src)
+		if err != nil {
+			fmt.Fprintln(os.Stderr, "translator:", err)
+			os.Exit(4)
+		}
+		fmt.Println("changed:", changed)
+		return
+	}
+	if err := runC16(cfg); err != nil {
 		fmt.Fprintln(os.Stderr, "harness error:", err)
 		os.Exit(3)
 	}
